@@ -1,8 +1,67 @@
-"""C04: random histories on the real container validated by TLC against SGAbs.tla (SGTrace.tla)."""
+"""C04: random histories on the real MatrixGraph validated by TLC against SGAbs.tla (SGTrace.tla), plus the
+implementation-shaped model of the adjacency-matrix growth (MatrixGrow.tla): model-checked, and every completed
+behaviour replayed through the real growth routine (cfg(petgraph_verif) hook)."""
 from props.sgcommon import *
 
+
+def grow_stage(run, thorough):
+    cfgdir = os.path.join(SPEC, "simple")
+    if thorough:
+        for name in ("MatrixGrow.cfg", "MatrixGrowExport.cfg"):
+            q = open(os.path.join(cfgdir, name)).read().replace("MaxOld = 6", "MaxOld = 10").replace("MaxReq = 9", "MaxReq = 17")
+            open(os.path.join(cfgdir, "out_" + name), "w").write(q)
+        mc, ex = "out_MatrixGrow.cfg", "out_MatrixGrowExport.cfg"
+    else:
+        mc, ex = "MatrixGrow.cfg", "MatrixGrowExport.cfg"
+    run.add_mc("MatrixGrow (layout, no loss, termination)", tlc("simple/MatrixGrow", mc, workers=4, timeout=900, tag="c04grow"))
+    r = tlc("simple/MatrixGrow", ex, workers=1, timeout=900, tag="c04growx")
+    run.add_mc("MatrixGrow export", r)
+    calls = [parse_printed_json(l, "GROW")[1] for l in r.printed("GROW")]
+    if thorough:
+        for name in ("out_MatrixGrow.cfg", "out_MatrixGrowExport.cfg"):
+            os.remove(os.path.join(cfgdir, name))
+    if not calls:
+        raise ToolError("MatrixGrow export printed no behaviours")
+    inp = os.path.join(OUT, "traces", "C04-grow-in.ndjson")
+    outp = os.path.join(OUT, "traces", "C04-grow-out.ndjson")
+    write_ndjson(inp, calls)
+    vh(["mx-grow", "--in", inp, "--out", outp])
+    res = read_ndjson(outp)
+    if len(res) != len(calls):
+        raise ToolError("mx-grow answered %d of %d calls" % (len(res), len(calls)))
+    bad = [x for x in res if not x["ok"]]
+    run.traces += len(res) - len(bad)
+    run.extra["matrix_grow_calls_replayed"] = len(res)
+    log("[grow] %d behaviours of MatrixGrow replayed through the real routine, %d differ" % (len(res), len(bad)))
+    for x in bad[:5]:
+        c = x["call"]
+        run.violation({"kind": "matrix_grow", "old": c["old"], "req": c["req"], "exact": c["exact"], "directed": c["directed"], "panic": bool(x.get("panic"))},
+                      [dict(calls[x["i"]], got=x.get("arr"), got_new=x.get("new"))], header={"exec": "mx-grow"})
+    os.remove(inp)
+    os.remove(outp)
+    if os.path.exists(outp + ".cur"):
+        os.remove(outp + ".cur")
+
+
 def run(tier, seed):
-    return run_sg("C04", tier, seed, {"C03": "GraphMap", "C04": "MatrixGraph", "C05": "Csr / adj::List"}["C04"]).finish()
+    r = run_sg("C04", tier, seed, "MatrixGraph")
+    grow_stage(r, tier == "thorough")
+    r.assumptions.append("MatrixGrow.tla: exhaustive for old capacities 0..%s and requests up to %s with a fully populated matrix; the model's final Vec equals the real routine's for every such call" % (("10", "17") if tier == "thorough" else ("6", "9")))
+    return r.finish()
+
 
 def replay(path, seed):
+    evs = read_ndjson(path)
+    if evs and evs[0].get("replay", {}).get("exec") == "mx-grow":
+        run_ = Run("C04", "quick", seed)
+        build_harness()
+        calls = [e for e in evs if "replay" not in e]
+        inp = os.path.join(OUT, "traces", "C04-grow-rp.ndjson")
+        write_ndjson(inp, calls)
+        vh(["mx-grow", "--in", inp, "--out", inp + ".out"])
+        res = read_ndjson(inp + ".out")
+        for x in res:
+            if not x["ok"]:
+                run_.violation({"kind": "matrix_grow", "call": x["call"]}, [calls[x["i"]]], header={"exec": "mx-grow"})
+        return 1 if run_.violations else 0
     return replay_sg("C04", path, seed)
